@@ -312,7 +312,7 @@ var classCounts = []int{1, 1, 2, 4, 11, 34, 156, 1044, 12346}
 
 func runC01(c *Ctx) {
 	c.Level = "exploration"
-	c.Rule = "every labelled graph on n vertices (all 2^(n(n-1)/2) edge sets; the set is closed under relabelling, so invariance under the two generators (0 1) and (0 1 .. n-1) of S_n for every member is invariance under all n! relabellings); plus whole relabelling-closed families of regular graphs on 8-10 vertices and hard named graphs under bounded-distance relabellings; non-trivial = labelled graph with a non-trivial automorphism group (orbit smaller than n!) or regular (unit partition equitable, search must branch)"
+	c.Rule = "every labelled graph on n vertices (all 2^(n(n-1)/2) edge sets; the set is closed under relabelling, so invariance under the two generators (0 1) and (0 1 .. n-1) of S_n for every member is invariance under all n! relabellings); plus one representative of every isomorphism class on 8 and 9 vertices under a battery of relabellings, disjoint unions of up to three small components under all transpositions and pseudo-random relabellings, whole relabelling-closed families of regular graphs on 8-10 vertices and hard named graphs (n<=16) and irregular graphs with 23-36 vertices (merge phase of the refinement's stable sort) under bounded-distance and pseudo-random relabellings; non-trivial = labelled graph with a non-trivial automorphism group (orbit smaller than n!) or regular (unit partition equitable, search must branch)"
 	maxAll := 7
 	for n := 0; n <= maxAll; n++ {
 		c01Exhaust(c, n, "dense", classCounts[n])
@@ -353,6 +353,9 @@ func runC01(c *Ctx) {
 	c01Regular(c, 8, []int{0, 1, 2, 3, 4, 5, 6, 7})
 	c01Regular(c, 9, []int{0, 2, 4, 6, 8})
 	c01Hard(c)
+	c01Unions(c)
+	c01Reps(c)
+	c01Big(c)
 	if c.Thorough() {
 		c01Exhaust(c, 8, "dense", classCounts[8])
 		c01Exhaust(c, 7, "sparse", classCounts[7])
